@@ -161,6 +161,20 @@ def run_case(case, seed):
         r.true(key + ':array-call:input-unchanged', np.array_equal(A, A0), 'evaluation on an array modified the array')
         vb = np.asarray(f(A), dtype=float)
         r.true(key + ':array-call:repeatable', np.array_equal(va, vb), 'second evaluation on the same array differs')
+    # call history on ONE point buffer that the caller updates in place between calls (a time-stepping loop): every call must see
+    # the buffer's current contents -- value, partial, gradient, partial2
+    with r.op(key + ':buffer-reuse:call'):
+        buf = np.array(pts[0], dtype=float)
+        other = make(dict(case, given=True))          # a second object of the same function evaluates the fresh arrays
+        for p_ in pts[:4]:
+            buf[:] = p_
+            fresh = np.array(p_, dtype=float)
+            r.true(key + ':buffer-reuse:value', float(f(buf)) == float(other(fresh)), 'value at a point buffer updated in place differs from the value at a fresh array')
+            if not no_d1:
+                r.true(key + ':buffer-reuse:partial', float(f.partial(buf, idx)) == float(other.partial(fresh, idx)), 'partial at a point buffer updated in place')
+                r.true(key + ':buffer-reuse:gradient', np.array_equal(np.asarray(f.gradient(buf), dtype=float), np.asarray(other.gradient(fresh), dtype=float)), 'gradient at a point buffer updated in place')
+            if not no_d2:
+                r.true(key + ':buffer-reuse:partial2', float(f.partial2(buf, idx, idx)) == float(other.partial2(fresh, idx, idx)), 'partial2 at a point buffer updated in place')
     # every method as the FIRST call on a fresh object (the dimension may have to be inferred by that very call)
     p0 = pts[len(pts) // 2]
     ref = make(dict(case, given=True))
